@@ -193,6 +193,53 @@ Proof.
     unfold att_step. rewrite F, E, O. cbn. apply in_map_iff. exists a. split; [reflexivity | exact Ia].
 Qed.
 
+(* every operator named in the lists is the operator the state gives for a commit-flag vote *)
+Lemma commit_vote_names_sender vs v x o : commit_vote vs v x o -> names_sender vs o = true.
+Proof.
+  intros [I [F [_ O]]]. unfold names_sender. apply existsb_exists. exists v. split; [exact I|].
+  rewrite F, O. cbn. apply String.eqb_refl.
+Qed.
+
+Lemma forallb_map_in {A B} (f : B -> bool) (g : A -> B) (l : list A) :
+  (forall a, In a l -> f (g a) = true) -> forallb f (map g l) = true.
+Proof.
+  intros H. apply forallb_forall. intros b I. apply in_map_iff in I. destruct I as [a [<- I]]. apply H. exact I.
+Qed.
+
+Lemma olist_nil_or {A} (l : list A) : olist (nil_or l) = l.
+Proof. destruct l; reflexivity. Qed.
+
+Lemma check_all_attributed g st vs l : check_all g st vs = Some l -> attributed vs l = true.
+Proof.
+  unfold check_all. destruct (check_initial g st vs) as [i|] eqn:C; [|discriminate].
+  intros H. inversion H; subst. unfold attributed, lists_of. cbn [t_ops t_vops t_aops olist].
+  rewrite !olist_nil_or, !forallb_app. repeat (apply andb_true_intro; split).
+  - apply forallb_map_in. intros [o a] I.
+    destruct (check_initial_in g st vs i o a C I) as [v [x [CV _]]]. exact (commit_vote_names_sender vs v x o CV).
+  - apply forallb_map_in. intros [[o t] sg] I.
+    destruct (proj1 (check_valset_in vs o t sg) I) as [v [x [CV _]]]. exact (commit_vote_names_sender vs v x o CV).
+  - apply forallb_map_in. intros [[o sn] sg] I.
+    destruct (proj1 (check_atts_in vs o sn sg) I) as [v [x [a [CV _]]]]. exact (commit_vote_names_sender vs v x o CV).
+Qed.
+
+(* conversely, an operator that no commit-flag vote resolves to makes the lists differ from the computed ones *)
+Lemma foreign_operator_rejected g st l c o :
+  In o (olist (t_ops l) ++ olist (t_vops l) ++ olist (t_aops l)) -> names_sender (c_votes c) o = false ->
+  process g true st (Tx l c) <> ACCEPT.
+Proof.
+  intros I N A. destruct (accept_only_signed g st l c A) as [_ C].
+  pose proof (check_all_attributed g st (c_votes c) l C) as T. unfold attributed in T.
+  rewrite forallb_forall in T. rewrite (T o I) in N. discriminate.
+Qed.
+
+(* two handler instances: what one builds from a valid commit the other accepts on the same state *)
+Lemma coherence_across_instances g st1 st2 c l :
+  st1 = st2 -> c_valid c = true -> prepare g true st1 c = PInj l -> process g true st2 (Tx l c) = ACCEPT.
+Proof. intros <-. apply coherence. Qed.
+
+Lemma proposers_agree g st1 st2 c : st1 = st2 -> prepare g true st1 c = prepare g true st2 c.
+Proof. intros ->. reflexivity. Qed.
+
 (* ---------------------------------------------------------------------------------------- *)
 (* no panic                                                                                  *)
 (* ---------------------------------------------------------------------------------------- *)
@@ -252,8 +299,6 @@ Proof.
 Qed.
 
 Lemma nil_or_length {A} (l : list A) : List.length (olist (nil_or l)) = List.length l.
-Proof. destruct l; reflexivity. Qed.
-Lemma olist_nil_or {A} (l : list A) : olist (nil_or l) = l.
 Proof. destruct l; reflexivity. Qed.
 
 Lemma lists_of_aligned i s a : lists_aligned (lists_of i s a) = true.
@@ -693,18 +738,51 @@ Definition case_ok (c : c17_case) : Prop :=
                   (exists l c, m_prop m = Tx l c) -> m_verdict m = ACCEPT)) /\
       (forall m, In m muts -> mutant_ok en st m)
   | CArb en tbl st m => mutant_ok en st m
+  | CPeer en tbl st cm preps runs =>
+      (forall prep, In prep preps -> prep <> PPanic /\
+         (forall l, en = true -> prep = PInj l -> expected st cm = Some l /\ attributed (c_votes cm) l = true)) /\
+      (forall p q, In p preps -> In q preps -> p = q) /\
+      (forall m, In m runs -> mutant_ok en st m /\
+         (forall l c, en = true -> m_prop m = Tx l c -> c_valid c = true -> expected st c = Some l -> m_verdict m = ACCEPT))
   | CVerify ext has_evm nreq v => v <> PANIC
   end.
+
+Lemma prep_eqb_eq a b : prep_eqb a b = true -> a = b.
+Proof.
+  destruct a as [| |x], b as [| |y]; cbn; intros H; try discriminate; try reflexivity.
+  f_equal. apply itx_eqb_ok. exact H.
+Qed.
+
+Lemma preps_agree_eq preps : preps_agree preps = true -> forall p q, In p preps -> In q preps -> p = q.
+Proof.
+  destruct preps as [|h r]; cbn [preps_agree]; intros H p q Ip Iq; [contradiction|].
+  rewrite forallb_forall in H.
+  assert (E : forall x, In x (h :: r) -> x = h).
+  { intros x [<-|I]; [reflexivity|]. symmetry. apply prep_eqb_eq. apply H. exact I. }
+  rewrite (E p Ip), (E q Iq). reflexivity.
+Qed.
+
+Lemma spec_prep_sound en st cm prep : spec_prep en st cm prep = [] ->
+  prep <> PPanic /\
+  (forall l, en = true -> prep = PInj l -> expected st cm = Some l /\ attributed (c_votes cm) l = true).
+Proof.
+  unfold spec_prep. intros H. split.
+  - intros ->. destruct (existsb vote_short_sig (c_votes cm)); discriminate.
+  - intros l En ->. subst en. apply app_nil_both in H. destruct H as [H1 H2].
+    apply spec_if_nil in H1. apply spec_if_nil in H2. cbn [andb] in H1. split; [|exact H2].
+    destruct (expected st cm) as [l'|]; cbn in H1; [|discriminate]. apply itx_eqb_ok in H1. congruence.
+Qed.
 
 Lemma c17_check_sound c : c17_check c = [] -> case_ok c.
 Proof.
   unfold c17_check. intros H. apply app_nil_both in H. destruct H as [H _].
-  destruct c as [en tbl st cm prep main muts | en tbl st m | ext has_evm nreq v]; cbn [c17_specs case_ok] in *.
+  destruct c as [en tbl st cm prep main muts | en tbl st m | en tbl st cm preps runs | ext has_evm nreq v];
+    cbn [c17_specs case_ok] in *.
   - apply app_nil_both in H. destruct H as [H1 H]. apply app_nil_both in H. destruct H as [H2 H3].
+    destruct (spec_prep_sound en st cm prep H1) as [NP EX].
     split; [|split; [|split]].
-    + intros ->. destruct (existsb vote_short_sig (c_votes cm)); discriminate.
-    + intros l En ->. subst en. apply spec_if_nil in H1. cbn [andb] in H1.
-      destruct (expected st cm) as [l'|]; cbn in H1; [|discriminate]. apply itx_eqb_ok in H1. congruence.
+    + exact NP.
+    + intros l En E. exact (proj1 (EX l En E)).
     + intros m ->. split; [apply (spec_mutant_sound true en tbl st m H2)|].
       intros En V [l [c E]]. subst en. unfold spec_mutant in H2. rewrite E in *. cbn [negb] in H2.
       apply app_nil_both in H2. destruct H2 as [P1 H2]. apply app_nil_both in H2. destruct H2 as [_ H2].
@@ -713,6 +791,16 @@ Proof.
       exfalso. revert P1. cbn. unfold panic_process, prop_commit. destruct (existsb vote_short_sig (c_votes c)); discriminate.
     + intros m I. apply (spec_mutant_sound false en tbl st m). apply (flat_map_nil _ _ H3 m I).
   - apply (spec_mutant_sound false en tbl st m H).
+  - apply app_nil_both in H. destruct H as [H1 H]. apply app_nil_both in H. destruct H as [H2 H3].
+    split; [|split].
+    + intros prep I. apply spec_prep_sound. apply (flat_map_nil _ _ H1 prep I).
+    + apply preps_agree_eq. apply spec_if_nil in H2. exact H2.
+    + intros m I. pose proof (flat_map_nil _ _ H3 m I) as Hm. unfold spec_peer_run in Hm.
+      apply app_nil_both in Hm. destruct Hm as [Hc Hs]. split; [apply (spec_mutant_sound false en tbl st m Hs)|].
+      intros l c En E V X. subst en. apply spec_if_nil in Hc. rewrite E in Hc. cbn [honest_proposal negb orb] in Hc.
+      rewrite V, X in Hc. cbn [andb option_eqb] in Hc.
+      assert (R : itx_eqb l l = true) by (apply itx_eqb_ok; reflexivity). rewrite R in Hc. cbn [negb orb] in Hc.
+      apply verdict_eqb_ok in Hc. exact Hc.
   - apply app_nil_both in H. destruct H as [H _]. apply spec_if_nil in H. intros ->. discriminate.
 Qed.
 
@@ -723,4 +811,49 @@ Lemma pipeline_example :
                 lookup Z.eqb snapS (s_atts st') = Some [0x01a0; 0x01b1].
 Proof. eexists. eexists. repeat split; vm_compute; reflexivity. Qed.
 Lemma tamper_example : process as_found true st42 (Tx itx0 c42) = REJECT.
+Proof. vm_compute. reflexivity. Qed.
+
+(* ---------------------------------------------------------------------------------------- *)
+(* two handler instances on one state: non-vacuity of [CPeer] and of its clauses              *)
+(* ---------------------------------------------------------------------------------------- *)
+(* the consensus key of the only vote belongs to operator "oB" now (it was "oA"'s in earlier blocks; "oA" still
+   has its registered address 0xaa in slot 0 of checkpoint 2000's signature array, "oB" is not registered) *)
+Definition st_rk : bstate :=
+  {| s_evm := [("oA", 0x01aa)]; s_vsigs := [(2000, [1; 1])]; s_tsidx := [(1000, 0); (2000, 1)];
+     s_idxts := [(0, 1000); (1, 2000)]; s_valsets := [(1000, [0x01aa; 0x01bb])]; s_cur := None;
+     s_atts := []; s_snapvs := [] |}.
+Definition c_rk : commit :=
+  {| c_votes := [ {| v_flag := 2;
+                     v_ext := Some {| x_atts := []; x_sigA := None; x_sigB := None; x_vsig := Some 0x01c0; x_vts := 2000 |};
+                     v_op := Some "oB"; v_aok := false; v_addr := None |} ];
+     c_valid := true |}.
+Definition itx_rk (o : string) : itx :=
+  {| t_ops := Some []; t_evms := Some []; t_vops := Some [o]; t_vts := Some [2000]; t_vsigs := Some [SHex 0x01c0];
+     t_aops := None; t_atts := None; t_snaps := None |}.
+Definition run_rk (o : string) (v : verdict) (pre : option pre_out) : mutant :=
+  {| m_prop := Tx (itx_rk o) c_rk; m_verdict := v; m_pre := pre; m_other := true |}.
+Definition q_rk (arr : list hex) : option pre_out :=
+  Some (QOk {| q_evm := [("oA", 0x01aa)]; q_vsigs := [(2000, arr)]; q_atts := [] |}).
+(* both instances resolve the vote from the state *)
+Definition peer_honest : c17_case :=
+  CPeer true [] st_rk c_rk [PInj (itx_rk "oB"); PInj (itx_rk "oB")]
+        [run_rk "oB" ACCEPT (q_rk [1; 1]); run_rk "oB" ACCEPT (q_rk [1; 1])].
+(* the first instance resolves the vote to the operator it saw in earlier blocks *)
+Definition peer_stale : c17_case :=
+  CPeer true [] st_rk c_rk [PInj (itx_rk "oA"); PInj (itx_rk "oB")]
+        [run_rk "oA" ACCEPT (q_rk [0x01c0; 1]); run_rk "oA" REJECT None;
+         run_rk "oB" REJECT None; run_rk "oB" ACCEPT (q_rk [1; 1])].
+
+Lemma peer_example : prepare as_found true st_rk c_rk = PInj (itx_rk "oB") /\ c17_check peer_honest = [].
+Proof. split; vm_compute; reflexivity. Qed.
+
+Lemma stale_operator_flagged :
+  c17_check peer_stale =
+  [Spec "injected data differs from what the commit's vote extensions contain";
+   Spec "attribution: injected data is attributed to another validator than the one that sent it";
+   Spec "coherence: two honest proposers on the same state and extended commit built different proposals";
+   Spec "tamper: an accepted proposal differs from what its commit's vote extensions contain";
+   Spec "state: validator-set signature outside the slot of the validator that sent it";
+   Spec "coherence: an honest proposal built on the same state was rejected by an honest validator";
+   Diff "PrepareProposalHandler output"; Diff "ProcessProposalHandler verdict"; Diff "ProcessProposalHandler verdict"].
 Proof. vm_compute. reflexivity. Qed.
